@@ -89,6 +89,11 @@ func ruleCases(missing, aDir, aFile string) []rcase {
 		s("dir", aFile, "it is not dir", aFile),
 		s("file", missing, "\x00oserr", missing),
 		s("dir", missing, "\x00oserr", missing),
+		// paths for which stat fails with something else than "does not exist": below a regular file, a name too long
+		s("file", aFile+"/child", "\x00oserr", aFile+"/child"),
+		s("dir", aFile+"/child", "\x00oserr", aFile+"/child"),
+		s("file", aDir+"/"+strings.Repeat("n", 300), "\x00oserr", aDir+"/"+strings.Repeat("n", 300)),
+		s("dir", aDir+"/"+strings.Repeat("n", 300), "\x00oserr", aDir+"/"+strings.Repeat("n", 300)),
 	}
 	out = append(out, rcase{"exist", rv("x"), "it is nonsupport exist", "x", true})
 	return out
